@@ -338,6 +338,12 @@ func genReq(t *rapid.T) Req {
 // decorations, case, whitespace, a prefix / an extension of it).  The catalogue is keyed by the exact name.
 func unknownTable(t *rapid.T, existing []byte) []byte {
 	e := string(existing)
+	if rapid.IntRange(0, 3).Draw(t, "unknownbytes") == 0 {
+		// the table of a KV request is a protobuf `bytes` field: any byte string names a (here: unknown) table - not valid UTF-8,
+		// control characters, NUL, very long (seeded change C16-F: the name used verbatim as a metrics label)
+		return rapid.SampledFrom([][]byte{{0xff}, []byte(e + "\xfe"), {0xc3, 0x28}, {0xe2, 0x82}, []byte("\xf0\x28\x8c\x28"), {0}, []byte(e + "\x00"), []byte("\x00" + e), []byte("a\nb"), []byte("\r\n"), {0x7f}, {0x80},
+			bytes.Repeat([]byte("n"), 4096), bytes.Repeat([]byte{0xff}, 300), []byte("%s%d%!"), []byte("{}\"\\")}).Draw(t, "unknownrawname")
+	}
 	return []byte(rapid.SampledFrom([]string{"nope", "nope", e + "/", e + "/.", "./" + e, "/" + e, "x/../" + e, "../tables/" + e, e + "//", strings.ToUpper(e), e + " ", " " + e, e + "x", e[:max(1, len(e)-1)] + "?"}).Draw(t, "unknownname"))
 }
 
